@@ -1368,6 +1368,9 @@ func (self *Aof) LoadMaxAofId() ([16]byte, error) {
 		aofFile := NewAofFile(self, filepath.Join(self.dataDir, aofFilenames[i]), os.O_RDONLY, int(Config.AofFileBufferSize))
 		err = aofFile.Open()
 		if err != nil {
+			if err == io.EOF {
+				continue
+			}
 			return fileAofId, err
 		}
 		err = aofFile.ReadTail(aofLock)
